@@ -347,7 +347,10 @@ void ThreadPool::resizeLocked(ssize_t sn) {
     if (n > rings_.size()) {
       rings_.grow_by(n - rings_.size());
     }
-    numRings_.store(n, std::memory_order_release);
+    // Never shrink numRings_: a producer that read the larger count before this resize may still
+    // push to the higher rings after the drain above.  No worker owns those rings any more, so
+    // task-set waiters (tryExecuteNextFromRings) must keep scanning them.
+    numRings_.store(rings_.size(), std::memory_order_release);
 
     size_t newNumSteal = (n + stealRingSharing_ - 1) / stealRingSharing_;
     if (newNumSteal > stealRings_.size()) {
